@@ -168,6 +168,10 @@ def build_driver(work, log, race=False):
             cmd = ['go', 'build'] + extra + ['-race', '-tags', 'verif', '-o', work + '/wtdriver', './cmd/wtdriver']
             env = dict(GOENV, CGO_ENABLED='1')
         rc, out, err = sh(cmd, env=env, cwd=V + '/harness', timeout=1200)
+        if rc == 0:
+            # the command-line program itself (cmd/whispertool/main.go), for the operations that run it as a process
+            rc, out, err = sh(['go', 'build'] + extra + ['-o', work + '/whispertool', 'github.com/hnakamur/whispertool/cmd/whispertool'],
+                              env=GOENV, cwd=V + '/harness', timeout=1200)
     if rc != 0:
         log['driver_build_output'] = (out + err)[-4000:]
     return rc == 0
